@@ -201,6 +201,22 @@ class GenEmitter(st.Emitter):
     def __init__(self):
         super().__init__()
         self.ns = ""
+        self.dens = {}   # variable index -> denominator needed for phase arguments
+
+    def expr(self, e):
+        e = st.lift(e)
+        if e.op in ("sin", "cos", "exp"):
+            arg = e.args[0]
+            if e.op == "exp":
+                arg = st.split_I(arg)
+                if arg is None: raise TraceError("exp of a non-phase argument reached the emitter")
+            for c, t in st.linear_terms(arg):
+                if isinstance(t, E): raise TraceError("non-linear phase argument reached the emitter")
+                if isinstance(t, str) and t != "pi":
+                    i = self.vid(t)
+                    from math import lcm
+                    self.dens[i] = lcm(self.dens.get(i, 1), c.denominator)
+        return super().expr(e)
 
     def vid(self, name):
         import re
@@ -300,6 +316,7 @@ def emit_coq(T):
     for m, d in T["scaled"].items():
         em.ns = "scaled" + m
         out.append('Definition gen_scaled_%s : string * list expr * list (nat * odef) := ("%s", %s, %s).' % (m, d["call"][0][0], em.exprlist(d["call"][0][1]), em.defs(d["defs"])))
+    out.append("Definition gen_phase_vars : list (nat * positive) :=\n  [%s]." % "; ".join("(%d, %d%%positive)" % (i, d) for i, d in sorted(em.dens.items())))
     names = sorted(em.vars.items(), key=lambda kv: kv[1])
     out.append("Definition gen_varnames : list (nat * string) :=\n  [%s]." % "; ".join('(%d, "%s")' % (i, n) for n, i in names))
     return "\n".join(out) + "\n", em
